@@ -101,9 +101,9 @@ def merkle_root(txns: typing.List[bytes]) -> bytes:
     row = copy.copy(txns)
     if len(row) == 1:
         return row[0]
-    elif len(row) % 2:
-        row += [row[-1]]
     while len(row) >= 2:
+        if len(row) % 2:
+            row += [row[-1]]
         branches = []
         for i in range(0, len(row), 2):
             branches.append(bits.crypto.hash256(row[i] + row[i + 1]))
